@@ -345,6 +345,8 @@ def ctor_keeps_values(ctx, rule, only=None):
             def kept(v):
                 if v in params or v[0] == 'const':
                     return True
+                if v[0] == 'cond' and v[1][0] == 'cmp' and v[1][1] == 'is' and ('const', 'NoneType', None) in v[1][2:] and any(x in params for x in v[1][2:]):
+                    return kept(v[3])       # `if p is None: p = <generated default>` ... `self.a = p`
                 if v[0] == 'cond':
                     return kept(v[2]) and kept(v[3])
                 if v[0] == 'call' and isinstance(v[1], str) and v[1].startswith('enum ') and len(v[3]) == 1 and v[3][0][1] in params:
@@ -959,6 +961,28 @@ def check_substructures(ctx):
                       site=ctx.site(tb, tb.node), detail={'found': tq.text(a[3]) if len(a) == 4 else None})
 
 
+def header_length_form(S, buf):
+    """how Message.to_bytes gets the total length into octets 24..27 of the buffer it returns: ('patched', <pack_into call>) when the
+    finished buffer is patched with pack_into('>L', buf, 24, len(buf)); ('direct', None) when the header is packed with a length
+    that equals the length of what is returned (28 + the length of everything appended to it, by linear arithmetic); else None"""
+    from .. import bounds
+    pi = [x for x in S.calls_to(callee='struct.pack_into') if list(x.args.values())[:1] == [const('>L')]]
+    for x in pi:
+        a = list(x.args.values())
+        if len(a) == 4 and a[1] == buf and a[2] == const(24) and same(a[3], LEN(buf)) and not x.pc:
+            return 'patched', x
+    hp = [t for t in tq.find(strip_ids(buf), lambda y: tq.is_call(y, 'struct.pack') and list(tq.args(y).values())[:1] == [const('>8s8s4B2L')])]
+    if len(hp) == 1:
+        a = list(tq.args(hp[0]).values())
+        if len(a) == 9:
+            try:
+                if bounds.linear(a[8]) == bounds.linear(LEN(strip_ids(buf))):
+                    return 'direct', None
+            except Exception:
+                pass
+    return None
+
+
 def parse_refusals(ctx, rule):
     """Message.parse itself refuses a datagram for exactly two reasons: the fixed header does not unpack, and the checksum does not
     match (everything else is refused by the payload parsers it calls).  Any further `raise` in it is a new class of datagrams that no
@@ -1106,11 +1130,7 @@ def check_header(ctx, esc):
     ctx.check(bad is None, 'W2', 'IKE header version: major in the high nibble, minor in the low nibble, both directions (256 cases)',
               key=('W2', 'header-version'), site=ctx.site(tb, tb.node), detail={'counterexample': bad})
     buf = E.ret()
-    pi = [x for x in E.calls_to(callee='struct.pack_into') if list(x.args.values())[:1] == [const('>L')]]
-    ok = len(pi) == 1
-    if ok:
-        a = list(pi[0].args.values())
-        ok = len(a) == 4 and a[1] == buf and a[2] == const(24) and same(a[3], LEN(buf)) and not pi[0].pc
+    ok = header_length_form(E, buf) is not None
     ctx.check(ok, 'W2', 'IKE header length (offset 24) = total length of the message that is returned', key=('W2', 'header-length'),
               site=ctx.site(tb, tb.node))
 
@@ -1224,7 +1244,14 @@ def check_chain(ctx, esc):
                 return [t]
             a_, b_ = tq.restrict(nv, lambda t: True if strip_ids(t) == sk else None), tq.restrict(nv, lambda t: False if strip_ids(t) == sk else None)
             ok = ok and set(leaves(b_)) == {nxt} and set(leaves(a_)) <= {none, nxt}
-            look = [x for x in D.calls if x.name == 'parse' and strip_ids(x.recv or NONE) == ('index', strip_ids(D.expr('cls.type_2_payload')), tv)]
+            table_ = strip_ids(D.expr('cls.type_2_payload'))
+
+            def by_type(r):
+                """the registry entry of the announced type: TABLE[type] or TABLE.get(type)"""
+                r = strip_ids(r)
+                return r == ('index', table_, tv) or (tq.is_call(r, 'method.get') and r[2] == table_ and [v_ for _, v_ in r[3]][:1] == [tv]
+                                                      and all(v_ == NONE for _, v_ in r[3][1:]))
+            look = [x for x in D.calls if x.name == 'parse' and by_type(x.recv or NONE)]
             ok = ok and len(look) == 1
     ctx.check(ok, 'W4', 'decode: each payload is parsed as the type announced by the previous header (the first by the caller), until NONE',
               key=('W4', 'decode-chain'), site=ctx.site(pp, pp.node))
@@ -1246,13 +1273,17 @@ def check_chain(ctx, esc):
     # "unknown" = the registry lookup missed: KeyError caught at the lookup, or the membership test `type in type_2_payload` failed
     known = strip_ids(D.mk_cmp('in', ('acc', tvar[0], 0), D.expr('cls.type_2_payload'))) if len(tvar) == 1 else None
 
+    got = ('call', 'method.get', strip_ids(D.expr('cls.type_2_payload')), (('#0', ('acc', tvar[0], 0)),)) if len(tvar) == 1 else None
+    missing = strip_ids(D.mk_cmp('is', got, NONE)) if got is not None else None
+
     def unknown(rpc):
         return any(a[0][0] == 'caught' and 'KeyError' in tq.text(a[0]) and a[1] for a in rpc) or \
-            any(strip_ids(a[0]) == known and a[1] is False for a in rpc)
+            any(strip_ids(a[0]) == known and a[1] is False for a in rpc) or \
+            any(strip_ids(a[0]) == missing and a[1] is True for a in rpc)
     unk = [(rpc, rt) for rpc, rt, _ in D.raises if unknown(rpc)]
     ok = len(unk) == 1 and 'UnsupportedCriticalPayload' in tq.text(unk[0][1])
     if ok:
-        extra = [a for a in strip_ids(unk[0][0]) if a[0][0] not in ('caught',) and strip_ids(a[0]) != known and tq.contains(a[0], crit)]
+        extra = [a for a in strip_ids(unk[0][0]) if a[0][0] not in ('caught',) and strip_ids(a[0]) not in (known, missing) and tq.contains(a[0], crit)]
         ok = len(extra) == 1 and extra[0][1] is True
         # skipped otherwise: the cursor still advances by the announced length (one update for all paths)
         ok = ok and len(cur) == 1 and cur[0][3] == ln
